@@ -116,7 +116,7 @@ class Msg(abc.ABC):
 
 		result = ""
 
-		if self.ver > 0:
+		if self.ver is not None and self.ver > 0:
 			result += ("ver=%u " % self.ver)
 
 		if self.fn is not None:
@@ -159,7 +159,7 @@ class Msg(abc.ABC):
 		''' Validate the message fields (throws ValueError). '''
 
 		if not self.ver in self.KNOWN_VERSIONS:
-			raise ValueError("Unknown TRXD header version %d" % self.ver)
+			raise ValueError("Unknown TRXD header version %s" % self.ver)
 
 		if self.fn is None:
 			raise ValueError("TDMA frame-number is not set")
@@ -543,7 +543,7 @@ class RxMsg(Msg):
 		if self.toa256 is not None:
 			result += ("toa256=%d " % self.toa256)
 
-		if self.ver >= 0x01:
+		if self.ver is not None and self.ver >= 0x01:
 			if not self.nope_ind:
 				if self.mod_type is not None:
 					result += ("%s " % self.mod_type)
